@@ -105,4 +105,15 @@ CHECKS["C15"] = dict(
     note="Trusts: realisation of spelling terms as Python annotations. (A, None) written as a tuple is not among the statement's listed forms and is not generated.",
     ref="5 C15")
 
+CHECKS["C10"] = dict(
+    technique="TLC model check of the generated per-rank dispatcher (Dependent.tla: three strategies, fall-through wiring) against the Doc value-level outcome (MC_Dep: EnterSoundV, ValueAgree, DeterministicV) + TLA+ trace judge (Trace_Resolve C10Clause: runs_iff_holds, value_outcome, bound_guard) on recordings with extensional, logging user conditions",
+    text="The Doc layer states value-level applicability (Holds) and the documented order (a dependent type before every static type comparable with its bound, equal bounds unordered); TLC checks the implementation-shaped model of rank wrappers / strategy selection / fall-through against it and judges real runs of random mixtures of Dependent, Literal and static methods over a named value universe: which body ran, that it holds, that the outcome is the documented one, and that no condition was asked about a value outside its bound. Four defects found here were fixed; KF-pull-rank and the cross-position form of KF-levels remain known findings.",
+    note="Trusts: predicates given as sets of values; unions of dependents are judged for applicability and bound guard only. KF matching for dependent worlds is by input signature (no Impl prediction for two positions).",
+    ref="5 C10")
+CHECKS["C11"] = dict(
+    technique="TLA+ trace judge Trace_Value (dispatch_iff_isinstance, path_independent, emitted_iff_isinstance, literal_iff_equal / holds_iff_isinstance with Doc Holds) over every built-in value type x corpus value x companion method set; MC_Dep for the dispatcher strategies",
+    text="For every type of a closure of the built-in value-type constructors and every corpus value three observations are recorded - isinstance, the generated checking expression evaluated directly, and real dispatch inside five companion method sets that force the lookup-table, if-chain and counting code paths - and TLC checks that they all agree with each other and, where the Doc layer defines the meaning (Literal: equality; tuple[...]; shallow element checks; StartsWith / EndsWith / HasKey; & and |), with Holds.",
+    note="Trusts: the corpus; Regexp has no TLA+ semantics and is judged against isinstance only (the statement's own oracle). bool and int compare numerically (True == 1).",
+    ref="5 C11")
+
 PENDING_REASON = "check not built yet in this round (planned, see DESIGN section 10)"
